@@ -3,7 +3,8 @@
    property — parsing the text rendered from the writer's syntax tree returns that tree — is an
    explicit premise, validated by suite P-afm on every generated model. *)
 From Coq Require Import List Bool String ZArith Permutation.
-From FM Require Import Base.Result Model.Ast Model.FM Model.PFM Format.Afm Base.Str Proofs.PositionalFacts Proofs.AfmFacts.
+From FM Require Import Base.Result Model.Ast Model.FM Model.PFM Format.Afm Base.Str Model.PyRt Model.Loc Gen.Src_afm
+     Proofs.PositionalFacts Proofs.AfmFacts Proofs.SrcAfmFacts.
 Import ListNotations.
 Local Open Scope list_scope.
 
@@ -58,3 +59,23 @@ Print Assumptions C06_real_values_without_exponent.
 Example C06_nonvacuous : afm_ok afm_ex_model = true /\ afm_norm afm_ex_model <> afm_ex_model.
 Proof. split; [exact ex_ok | exact ex_moved]. Qed.
 Print Assumptions C06_nonvacuous.
+
+(* ---- the writer half about the TRANSLATED SOURCE of afm_writer.py (Gen/Src_afm.v, the class AFMWriter as a state record,
+   regenerated on every run; DESIGN §10): whatever the hand model writes, the translated transform() returns — for every model
+   whose real values have a pointed positional spelling (every genuine float repr: C06_source_real_repr_pointed; the code
+   appends ".0" otherwise, sa_unpointed_float_differs) — and a library error of the model is a library error of the code. ---- *)
+Theorem C06_source_writer : forall path m fuel t, (fuel_model m <= fuel)%nat ->
+  afm_model_pointed m = true -> afm_write m = Ok t ->
+  py_AFMWriter_transform fuel (py_AFMWriter_new path m) = Ok t.
+Proof. exact src_afm_transform. Qed.
+Print Assumptions C06_source_writer.
+
+Theorem C06_source_writer_library_error : forall path m fuel, (fuel_model m <= fuel)%nat ->
+  afm_write m = Err FlamaException -> py_AFMWriter_transform fuel (py_AFMWriter_new path m) = Err FlamaException.
+Proof. exact src_afm_transform_library_error. Qed.
+Print Assumptions C06_source_writer_library_error.
+
+Theorem C06_source_constraint_text : forall w n fuel ex, (fuel_node n <= fuel)%nat -> afm_expr n = Ok ex ->
+  py_AFMWriter_recursive_constraint_read fuel w n = Ok (afm_render_expr ex).
+Proof. exact src_afm_expr. Qed.
+Print Assumptions C06_source_constraint_text.
